@@ -207,7 +207,7 @@ impl<'de> serde::de::EnumAccess<'de> for TableMapAccess {
                 e
             })?;
 
-        let variant = super::TableEnumDeserializer::new(value);
+        let variant = super::TableEnumDeserializer::new(key.get().to_owned(), value);
 
         Ok((val, variant))
     }
